@@ -1053,7 +1053,6 @@ func (m *repoManager) deleteRepo(uuid dvid.UUID, passcode string) error {
 	for v := range r.dag.nodes {
 		u, found := m.versionToUUID[v]
 		if !found {
-			m.idMutex.Unlock()
 			dvid.Errorf("Found version id %d with no corresponding UUID on delete of repo %s!\n", v, uuid)
 			continue
 		}
